@@ -4,7 +4,12 @@
    The constants epsilon and the Degenerate tolerances come from Generated/MarchTables.v.
    Theorems are about the ROps instance. *)
 From Coq Require Import List ZArith NArith Bool Reals Lra Lia.
-From Sdfx Require Import Num.Ops Num.RInst Geo.Vec Generated.MarchTables Render.MC Render.MS.
+From Sdfx Require Import Num.Ops.
+From Sdfx Require Import Num.RInst.
+From Sdfx Require Import Geo.Vec.
+From Sdfx Require Import Generated.MarchTables.
+From Sdfx Require Import Render.MC.
+From Sdfx Require Import Render.MS.
 Import OpsNotations ListNotations.
 Local Open Scope ops_scope.
 
